@@ -348,6 +348,7 @@ def run_impl(ctx, cases, timeout=1800):
                 return type(e).__name__
 
         res = []
+        file_gen = 0
         for c in cases:
             tm = c["term"]
             if tm["kind"] == "W":
@@ -371,6 +372,17 @@ def run_impl(ctx, cases, timeout=1800):
                     inst = t.build_image_instance(Image.new("1", (c["w"], c["h"])), id=1, **kw)
                     return inst.cols, inst.rows
                 r["build"] = guarded(build)
+                # ... and for a FILE: always the same path, rewritten with this case's image (the size that counts is the
+                # one the file has now)
+                def build_file():
+                    nonlocal file_gen
+                    file_gen += 1
+                    path = os.path.join(work, "c15-build.png")
+                    Image.new("1", (c["w"], c["h"])).save(path)
+                    os.utime(path, ns=(1_700_000_000_000_000_000 + file_gen * 10**9, 1_700_000_000_000_000_000 + file_gen * 10**9))
+                    inst = t.build_image_instance(path, id=1, **kw)
+                    return inst.cols, inst.rows
+                r["build_file"] = guarded(build_file)
             if c.get("via") == "upload":
                 # the r= and c= keys of the transmit command actually written to the terminal
                 def upload():
@@ -539,6 +551,11 @@ def evaluate(ctx, model, cases, cov, stats):
         # ---- correspondence
         if "build" in r and r["build"] != opt:
             ctx.corr_breaks.append({"what": f"{c['via']}: sizes of the image instance / c= r= of the transmit command differ from get_optimal_cols_and_rows", "case": c, "impl": [r["build"], opt]})
+        if "build_file" in r and r["build_file"] != opt:
+            # the box of an image FILE is the box of the image the file holds now (opt is judged by the oracle below)
+            ctx.violations.append({"signature": {"class": "image-file-box-differs-from-box-of-its-current-size", "dims": dims_class(c, r["max"]) if isinstance(r["max"], list) else "?"},
+                                   "what": f"build_image_instance(<file holding a {c['w']}x{c['h']} image>) gives {r['build_file']}, get_optimal_cols_and_rows({c['w']}, {c['h']}) gives {opt} "
+                                           "(the same path held images of other sizes before)", "case": c})
         if fl is not None and fl[i] != opt:
             ctx.corr_breaks.append({"what": "get_optimal_cols_and_rows differs from the binary64 model (Model/CellSizeFloat.v)", "case": c, "impl": opt, "model": fl[i]})
         agree = None
